@@ -220,7 +220,7 @@ def model_tasks(tier: str, seed: int, maxf: int, dm: int, cats=None, harness_nam
 def run(tier: str, seed: int) -> int:
     t0 = time.time()
     th = tier == "thorough"
-    maxf, dm, dv = (3, 4, 2) if th else (2, 3, 2)
+    maxf, dm, dv = (3, 3, 2) if th else (2, 3, 2)
     vecs = G.enumerate_models(dm, maxf)
     tasks = []
     for v in vecs:
